@@ -10,12 +10,16 @@ Correspondence (this file), always on the current working tree of /repo:
      all pairwise squared distances, tour costs by the real env.
   B  the _inner regrouping of every eval class (and DecodingStrategy._select_best) on tagged rewards with ties
      vs the Coq model `ev_select / ev_inner_msa / ev_inner_sampling`.
-  C  EvalBase.__call__ padding + concatenation vs `ev_pad_concat`.
+  C  EvalBase.__call__ padding + concatenation vs `ev_pad_concat`; the aggregates of the returned dictionary: rewards =
+     concatenation, avg_reward = their mean (`ev_avg_reward`, Train/EvalAggregate.v), inference_time = elapsed time.
   D  evaluate_policy end to end with a deterministic stub decoder inside the real ConstructivePolicy
      (real decoding strategies, real env): reported reward = objective of the returned (padded) actions on the
      original instance = max over the instance's candidates (recomputed independently; candidates captured at
      DecodingStrategy.post_decoder_hook and assigned to instances by an isometry-invariant fingerprint).
   E  POMO / SymNCO shared_step(test) with the same stub: max_aug_reward / best_aug_actions.
+  F  POMO / SymNCO constructor + shared_step over the grid num_augment {1,2,8} x num_starts {None,0,1,2,4} x phase
+     {train,val,test} with a stub policy returning tagged rewards: raises / returns and max_reward / max_aug_reward vs
+     the model `pomo_shared_step / symnco_shared_step` (Train/SharedStepGrid.v).
 Search = the spec-on-impl evaluations above (they run on every invocation)."""
 import contextlib
 import io
@@ -32,11 +36,16 @@ SIG_FAI = "StateAugmentation/first_aug_identity=False: node-0-of-row-B-overwritt
 SIG_NORM = "StateAugmentation/normalize=True: global-min-max-rescales-distances"
 SIG_FEATS = "StateAugmentation/symmetric+several-feats: independent-rotation-per-feature"
 SIG_SYMNCO = "symnco/shared_step: best_aug_actions-is-[B,A,L]-not-one-sequence-per-instance"
+SIG_POMO_SINGLE = "pomo/shared_step: raises-in-val-test-with-augmentation-and-a-single-start"
+SIG_SYMNCO_SINGLE = "symnco/shared_step: max_aug_reward-not-maximised-over-the-augmentations-when-num_starts=1"
+SIG_SYMNCO_NONE = "symnco/__init__: documented-num_starts=None-raises-TypeError"
 # Observations that are NOT failures of C15 as stated and are therefore only recorded in the evidence:
 #  * normalize=True is a documented option that min-max rescales the coordinates on purpose;
 #  * SymNCO's `best_aug_actions` never leaves shared_step (only `loss` and logged metrics are returned), so its
-#    shape is not observable through the API the property talks about.
-OUT_OF_SCOPE = {SIG_NORM, SIG_SYMNCO}
+#    shape is not observable through the API the property talks about;
+#  * SymNCO(num_starts=None) -- the value the class docstring describes -- is rejected by the constructor
+#    (`self.num_starts > 1` on None): a constructor crash, no evaluation result is reported at all (integrator's triage).
+OUT_OF_SCOPE = {SIG_NORM, SIG_SYMNCO, SIG_SYMNCO_NONE}
 
 
 def F(x):
@@ -526,6 +535,10 @@ def part_c(ctx, torch, rng, fails):
             return td["actions"], td["rewards"]
 
     cases = []
+    av_cases, av_meta = [], []
+    import random as _random
+    import time as _time
+    arng = _random.Random("C15-avg-reward-%s" % ctx.seed)      # own stream: the draws of the other parts stay as they were
     n = 40 if ctx.tier == "quick" else 150
     for i in range(n):
         nb = rng.randint(1, 4)
@@ -535,10 +548,36 @@ def part_c(ctx, torch, rng, fails):
         for _ in range(nb):
             rows, w = rng.randint(1, 3), (w0 if equal_width else rng.randint(1, 6))
             batches.append([[rng.randint(0, 9) for _ in range(w)] for _ in range(rows)])
-        loader = [Batch(actions=torch.tensor(b), rewards=torch.zeros(len(b))) for b in batches]
+        # per-instance rewards: negative dyadic costs (k/64, float32), constant in every 5th case
+        rews = [[(-arng.randint(1, 512) / 64.0) for _ in b] for b in batches]
+        if i % 5 == 4:
+            rews = [[rews[0][0]] * len(b) for b in batches]
+        loader = [Batch(actions=torch.tensor(b), rewards=torch.tensor(r, dtype=torch.float32)) for b, r in zip(batches, rews)]
+        t0 = _time.time()
         with silence():
             out = PreMade(IdEnv(), progress=False)(Pol(), loader)
+        wall = _time.time() - t0
         impl = out["actions"].tolist()
+        # the aggregates of the returned dictionary: rewards = concatenation, avg_reward = their mean, inference_time = elapsed time
+        flat = [x for r in rews for x in r]
+        got_r = [float(x) for x in out["rewards"].reshape(-1)]
+        got_avg = float(out["avg_reward"])
+        want_avg = sum(Fraction(x) for x in got_r) / len(got_r) if got_r else Fraction(0)
+        av_cases.append("(%s, %s, %s, %s)" % (cq(Fraction(1, 10 ** 6)), clist(clist(cq(F(x)) for x in r) for r in rews),
+                                              clist(cq(F(x)) for x in got_r), cq(F(got_avg))))
+        av_meta.append({"unit": "EvalBase.__call__ aggregates", "batch_sizes": [len(r) for r in rews]})
+        ctx.count("avg_reward_cases")
+        if got_r != flat:
+            fails.append(("EvalBase.__call__: rewards-are-not-the-concatenation-of-the-per-batch-rewards",
+                          {"unit": "EvalBase.__call__", "per_batch_rewards": rews, "observed": got_r, "expected": flat}))
+        elif abs(Fraction(got_avg) - want_avg) > Fraction(1, 10 ** 6) * (1 + abs(want_avg)):
+            fails.append(("EvalBase.__call__: avg_reward-is-not-the-mean-of-the-returned-rewards",
+                          {"unit": "EvalBase.__call__", "per_batch_rewards": rews, "returned_rewards": got_r,
+                           "observed_avg_reward": got_avg, "expected_avg_reward": float(want_avg)}))
+        it = out.get("inference_time")
+        if not (isinstance(it, float) and -1e-3 <= it <= wall + 1e-3):
+            fails.append(("EvalBase.__call__: inference_time-is-not-the-elapsed-time-of-the-call",
+                          {"unit": "EvalBase.__call__", "observed_inference_time": it, "wall_time_of_the_call": wall}))
         cases.append("(%s, %s)" % (clist(clist(cnatlist(r) for r in b) for b in batches), clist(cnatlist(r) for r in impl)))
         ctx.seen({"c": batches}, nontrivial=nb > 1 and not equal_width)
         ctx.count("pad_concat_cases")
@@ -556,6 +595,18 @@ def part_c(ctx, torch, rng, fails):
         ctx.units["EvalBase.__call__ pad + concat"] = {"cases": len(codes), "disagreements": len(nz)}
         if nz:
             ctx.broken.append("correspondence C15/pad_concat: model and implementation differ (case %d)" % nz[0])
+    try:
+        codes = coq_eval_shards("cases_C15_avg", HEADER, "av_case", "check_avg_reward", av_cases, shard=60)
+    except RuntimeError as e:
+        codes = None
+        ctx.broken.append("correspondence C15/avg_reward could not be evaluated: %s" % str(e)[-600:])
+    if codes is not None:
+        nz = [(i, c) for i, c in enumerate(codes) if c != 0]
+        ctx.units["EvalBase.__call__ rewards + avg_reward"] = {"cases": len(codes), "disagreements": len(nz)}
+        if nz:
+            ctx.broken.append("correspondence C15/avg_reward: model and implementation differ in %d of %d cases (first: case %d, code %d; "
+                              "1 = rewards not the concatenation, 2 = avg_reward not their mean) %s"
+                              % (len(nz), len(codes), nz[0][0], nz[0][1], av_meta[nz[0][0]]))
 
 
 # ------------------------------------------------------------------------------------------------ parts D, E
@@ -709,6 +760,13 @@ def part_d(ctx, torch, rng, fails):
                     if rew.shape != (n,) or acts.shape[0] != n:
                         fails.append(("eval/%s: wrong-output-shape" % method, dict(base_info, shapes=[list(rew.shape), list(acts.shape)])))
                         continue
+                    # the headline number: avg_reward = mean of the returned per-instance rewards (float32: 1e-6 relative)
+                    avg_got = float(out["avg_reward"])
+                    avg_want = sum(Fraction(float(x)) for x in rew) / n
+                    stats["avg_reward_checked"] = stats.get("avg_reward_checked", 0) + 1
+                    if abs(Fraction(avg_got) - avg_want) > Fraction(1, 10 ** 6) * (1 + abs(avg_want)):
+                        fails.append(("eval/%s: avg_reward-is-not-the-mean-of-the-returned-rewards" % method,
+                                      dict(base_info, observed_avg_reward=avg_got, expected_avg_reward=float(avg_want))))
                     cands, unknown = cap.candidates(fps)
                     if unknown:
                         ctx.broken.append("correspondence C15/evaluate_policy: %d decoded rows are not an isometric copy of any instance (%s, %s)" % (unknown, method, kw))
@@ -834,6 +892,154 @@ def part_e(ctx, torch, rng, fails):
     ctx.units["POMO / SymNCO shared_step(test) with the stub policy"] = stats
 
 
+# ------------------------------------------------------------------------------------------------ part F
+def part_f(ctx, torch, fails):
+    """POMO / SymNCO over the configuration grid num_augment {1,2,8} x num_starts {None,0,1,2,4} x phase {train,val,test}
+    (x policy returns actions or not): the REAL constructor and shared_step with a stub policy that returns tagged integer
+    rewards; raise-vs-return and the max_reward / max_aug_reward handed to log_metrics are compared with the Coq model
+    (Train/SharedStepGrid.v) and, independently, with the statement of C15 (every configuration the classes document
+    returns; max_aug_reward[b] = max over all rows holding a copy of instance b; training with one start is refused)."""
+    import random as _random
+    import torch.nn as nn
+    from rl4co.envs import TSPEnv
+    from rl4co.models.zoo.pomo import POMO
+    from rl4co.models.zoo.symnco import SymNCO
+
+    grng = _random.Random("C15-shared-step-grid-%s" % ctx.seed)    # own stream (see part C)
+    NLOC = 5
+    with silence():
+        env = TSPEnv(generator_params=dict(num_loc=NLOC))
+
+    class GridPolicy(nn.Module):
+        def __init__(self):
+            super().__init__()
+            self.w = nn.Parameter(torch.zeros(1))
+            self.train_decode_type, self.val_decode_type, self.test_decode_type = "sampling", "greedy", "greedy"
+            self.rewards, self.with_actions, self.calls = None, True, []
+
+        def forward(self, td, env=None, phase="train", num_starts=0, **kw):
+            rows = td.batch_size[0] * max(int(num_starts or 0), 1)
+            self.calls.append((rows, num_starts))
+            r = torch.tensor([float(self.rewards(k)) for k in range(rows)], dtype=torch.float32)
+            out = {"reward": r, "log_likelihood": torch.zeros(rows, requires_grad=True) - 1.0,
+                   "proj_embeddings": torch.ones(td.batch_size[0], 2, 3, requires_grad=True)}
+            if self.with_actions:
+                out["actions"] = torch.arange(rows)[:, None].repeat(1, NLOC)
+            return out
+
+    PH = {"train": 0, "val": 1, "test": 2}
+    cases, meta = [], []
+    stats = {"steps": 0, "raised": 0, "returned": 0}
+    for model in ("pomo", "symnco"):
+        for A in (1, 2, 8):
+            for S in (None, 0, 1, 2, 4):
+                for phase in ("train", "val", "test"):
+                    for with_actions in ((True, False) if phase != "train" else (True,)):
+                        B = grng.choice([1, 2, 3])
+                        table = [grng.randint(0, 5) for _ in range(B * 8 * 5 + 1)]
+                        pol = GridPolicy()
+                        pol.rewards, pol.with_actions = (lambda k: -table[k % len(table)]), with_actions
+                        kw = dict(num_augment=A, num_starts=S)
+                        if model == "pomo" and A != 8:
+                            kw["augment_fn"] = "symmetric"
+                        info = {"unit": "%s.shared_step" % model.upper(), "env": "TSPEnv(num_loc=5)", "model_kwargs": dict(kw), "phase": phase,
+                                "batch_size": B, "policy_returns_actions": with_actions,
+                                "stub_policy": "row k of the replicated batch gets reward -table[k]", "table": table}
+                        captured, stage, err, m = {}, 0, None, None
+                        torch.manual_seed(grng.randint(0, 2 ** 31))
+                        with silence():
+                            try:
+                                m = (POMO if model == "pomo" else SymNCO)(env, policy=pol, batch_size=B, train_data_size=B, val_data_size=B,
+                                                                         test_data_size=B, **kw)
+                            except Exception as e:  # noqa: BLE001
+                                stage, err = 1, "%s: %s" % (type(e).__name__, str(e)[:160])
+                            if m is not None:
+                                m.log_metrics = lambda out, phase, dataloader_idx=None: captured.update(out=out) or {}
+                                batch = env.generator(batch_size=[B])
+                                try:
+                                    m.shared_step(batch, 0, phase)
+                                except Exception as e:  # noqa: BLE001
+                                    stage, err = 2, "%s: %s" % (type(e).__name__, str(e)[:160])
+                        out = captured.get("out", {}) if stage == 0 else {}
+                        rows = pol.calls[-1][0] if pol.calls else 0
+                        reward_rows = [-table[k % len(table)] for k in range(rows)]
+                        mr = out.get("max_reward") if stage == 0 else None
+                        mar = out.get("max_aug_reward") if stage == 0 else None
+                        f_mr = None if mr is None else [int(round(float(x))) for x in mr.reshape(-1)]
+                        f_mar = None if mar is None else [int(round(float(x))) for x in mar.reshape(-1)]
+                        stats["steps"] += 1
+                        stats["raised" if stage else "returned"] += 1
+                        ctx.count("grid_%s_%s" % (model, "raises" if stage else "returns"))
+                        ctx.seen({"f": [model, A, S, phase, with_actions, B, table]}, nontrivial=B > 1)
+                        # when the constructor / step raised before the policy ran, the model still needs the rows it WOULD have seen
+                        if not pol.calls:
+                            n_start = S if S is not None else NLOC
+                            a_rows = A if (A > 1 and (model == "symnco" or phase != "train")) else 1
+                            rows = B * a_rows * max(n_start, 1)
+                            reward_rows = [-table[k % len(table)] for k in range(rows)]
+                        opt = lambda v: "None" if v is None else "(Some %s)" % clist(cz(x) for x in v)
+                        cases.append("(%s, %s, %s, %s, %s, %s, %s, (%s, %s, %s))" % (
+                            cnat(0 if model == "pomo" else 1), cnat(A), "None" if S is None else "(Some %s)" % cnat(S), cnat(NLOC),
+                            cnat(PH[phase]), cbool(with_actions), clist(cz(x) for x in reward_rows), cnat(stage), opt(f_mr), opt(f_mar)))
+                        meta.append({"model": model, "num_augment": A, "num_starts": S, "phase": phase, "actions": with_actions, "B": B,
+                                     "observed": "raised (%s)" % err if stage else "returned"})
+                        info["observed"] = {"raised": err, "max_reward": None if mr is None else mr.tolist(),
+                                            "max_aug_reward": None if mar is None else mar.tolist()}
+                        # ---------------- the statement of C15 / the documented behaviour on this configuration
+                        n_start = S if S is not None else NLOC
+                        if stage == 1:
+                            sig = SIG_SYMNCO_NONE if (model == "symnco" and S is None) else "%s/__init__: raises-on-a-documented-configuration" % model
+                            fails.append((sig, dict(info, expected="the constructor accepts the configuration (class docstring)")))
+                            continue
+                        if phase == "train":
+                            if model == "pomo" and n_start <= 1:
+                                if stage == 0:
+                                    fails.append(("pomo/shared_step: training-with-a-single-start-is-not-refused",
+                                                  dict(info, expected="AssertionError 'num_starts must be > 1 during training' (the shared "
+                                                                      "baseline's advantage is identically zero with one start)")))
+                            elif stage:
+                                fails.append(("%s/shared_step: raises-on-a-supported-configuration" % model, dict(info, expected="returns a loss")))
+                            continue
+                        if stage:
+                            sig = (SIG_POMO_SINGLE if (model == "pomo" and A > 1 and n_start <= 1 and with_actions)
+                                   else "%s/shared_step: raises-on-a-supported-configuration" % model)
+                            fails.append((sig, dict(info, expected="the validation / test step returns (the code has explicit branches for n_start <= 1)")))
+                            continue
+                        # candidates of instance b: every row r with r mod B == b
+                        best = [max(reward_rows[r] for r in range(rows) if r % B == b) for b in range(B)]
+                        if A > 1:
+                            if f_mar is None:
+                                fails.append(("%s/shared_step: no-max_aug_reward" % model, dict(info, expected=best)))
+                            elif f_mar != best:
+                                sig = (SIG_SYMNCO_SINGLE if (model == "symnco" and n_start == 1 and len(f_mar) == B * A)
+                                       else "%s/shared_step: max_aug_reward-is-not-the-maximum-over-the-instance's-rollouts" % model)
+                                fails.append((sig, dict(info, expected_max_aug_reward=best,
+                                                        what="max_aug_reward[b] must be the best reward among all rows that hold a copy of instance b")))
+                        if n_start > 1:
+                            a_eff = max(A, 1)
+                            want = [max(reward_rows[r] for r in range(rows) if r % B == b and (r // B) % a_eff == a)
+                                    for b in range(B) for a in range(a_eff)] if model == "pomo" else None
+                            if model == "symnco":      # rows are laid out a-major for SymNCO: row = a*(S*B) + s*B + b
+                                want = [max(reward_rows[a * (n_start * B) + s * B + b] for s in range(n_start)) for b in range(B) for a in range(a_eff)]
+                            if f_mr is None:
+                                fails.append(("%s/shared_step: no-max_reward" % model, dict(info, expected=want)))
+                            elif f_mr != want:
+                                fails.append(("%s/shared_step: max_reward-is-not-the-maximum-over-the-starts" % model, dict(info, expected_max_reward=want)))
+    try:
+        codes = coq_eval_shards("cases_C15_grid", HEADER, "gr_case", "check_grid", cases, shard=80)
+    except RuntimeError as e:
+        codes = None
+        ctx.broken.append("correspondence C15/shared_step_grid could not be evaluated: %s" % str(e)[-600:])
+    if codes is not None:
+        nz = [(i, c) for i, c in enumerate(codes) if c != 0]
+        stats.update(cases=len(codes), disagreements=len(nz))
+        if nz:
+            i, c = nz[0]
+            ctx.broken.append("correspondence C15/shared_step_grid: model and implementation differ in %d of %d cases (first: case %d, code %d; "
+                              "1 = raises-vs-returns, 2 = max_reward, 3 = max_aug_reward) %s" % (len(nz), len(codes), i, c, meta[i]))
+    ctx.units["POMO / SymNCO shared_step configuration grid (stub policy, tagged rewards)"] = stats
+
+
 # ------------------------------------------------------------------------------------------------ driver
 def run(ctx: Ctx, proofs_ok: bool):
     import torch
@@ -847,7 +1053,7 @@ def run(ctx: Ctx, proofs_ok: bool):
                 "rotation angles from a seeded torch.rand with the code's own torch.cos/sin values captured (real stream, 1e-6) or dyadic (c,s) incl. the four "
                 "axis rotations injected (exact stream, zero tolerance). B: tagged integer rewards in 0..3 (ties), B 1..6, k, A, S 1..4. C: 1..4 loader batches "
                 "of 1..3 rows and widths 1..6. D: 1..6 instances of 4-5 nodes (CVRP: light/heavy/mixed demands so that loader batches differ in length), "
-                "all 7 methods of evaluate_policy, loader batch sizes {1,2,3,n}. E: POMO/SymNCO test step. non-trivial = more than one copy/candidate/batch; "
+                "all 7 methods of evaluate_policy, loader batch sizes {1,2,3,n} (avg_reward = mean of the returned rewards for every method). E: POMO/SymNCO test step. F: num_augment {1,2,8} x num_starts {None,0,1,2,4} x phase x policy-returns-actions, B in 1..3, integer rewards 0..-5 (ties). non-trivial = more than one copy/candidate/batch; "
                 "distinct by hash of inputs")
     ctx.trusted.append("translator/ext_c15.py (per-point meaning given to split/cat/flip/where; torch.cos(phi), torch.sin(phi), phi > 2*pi opaque)")
     ctx.assumptions += [
@@ -866,6 +1072,7 @@ def run(ctx: Ctx, proofs_ok: bool):
         part_c(ctx, torch, rng, fails)
         part_d(ctx, torch, rng, fails)
         part_e(ctx, torch, rng, fails)
+        part_f(ctx, torch, fails)
     finally:
         torch.set_num_threads(nthreads)
 
